@@ -131,6 +131,51 @@ theorem get_refines {g : Graph V} (wf : WF g) {s : St V} (h : Inv g s) {i : Nat}
     ReadOK g (absS g s) i (State.get g s i).2 ∧ absS g (State.get g s i).1 = absS g s :=
   ⟨(get_spec wf h hi).2.2.2.2.2, (get_spec wf h hi).2.1⟩
 
+/-- What a read may return is determined by the independent values alone (`ReadOK` has exactly one solution). -/
+theorem readOK_unique {g : Graph V} {ind : Cache V} {i : Nat} {r r' : Except Err V}
+    (h : ReadOK g ind i r) (h' : ReadOK g ind i r') : r = r' := by
+  cases r with
+  | ok v =>
+    cases r' with
+    | ok v' =>
+      have hv : spec g ind i = some v := h
+      have hv' : spec g ind i = some v' := h'
+      rw [hv] at hv'; cases hv'; rfl
+    | error e' =>
+      have hv : spec g ind i = some v := h
+      have hv' : e' = .input ∧ spec g ind i = none := h'
+      rw [hv] at hv'; cases hv'.2
+  | error e =>
+    have hv : e = .input ∧ spec g ind i = none := h
+    cases r' with
+    | ok v' =>
+      have hv' : spec g ind i = some v' := h'
+      rw [hv.2] at hv'; cases hv'
+    | error e' =>
+      have hv' : e' = .input ∧ spec g ind i = none := h'
+      rw [hv.1, hv'.1]
+
+/-- **Two consistent states holding the same independent values answer every read alike** — whatever each has cached,
+    whatever was read, proposed or reverted on either before (history independence of reads). -/
+theorem reads_depend_on_independent_values_only {g : Graph V} (wf : WF g) {s s' : St V} (h : Inv g s) (h' : Inv g s')
+    (habs : absS g s = absS g s') {i : Nat} (hi : i < g.n) : (State.get g s i).2 = (State.get g s' i).2 := by
+  have a := (get_refines wf h hi).1
+  have b := (get_refines wf h' hi).1
+  rw [← habs] at b
+  exact readOK_unique a b
+
+/-- **A clone answers every read as its source does** (any combination of the two clone options), and reading one of the two
+    does not change what the other answers afterwards. -/
+theorem clone_reads_agree {g : Graph V} (wf : WF g) {s : St V} (h : Inv g s) (a b : Bool) {i j : Nat}
+    (hi : i < g.n) (hj : j < g.n) :
+    (State.get g (clone s a b) i).2 = (State.get g s i).2 ∧
+    (State.get g (State.get g (clone s a b) j).1 i).2 = (State.get g s i).2 := by
+  have hc : Inv g (clone s a b) := inv_clone h a b
+  have habs : absS g (clone s a b) = absS g s := rfl
+  refine ⟨reads_depend_on_independent_values_only wf hc h habs hi, ?_⟩
+  obtain ⟨c1, c2, _⟩ := get_spec wf hc hj
+  exact reads_depend_on_independent_values_only wf c1 h (c2.trans habs) hi
+
 /-- A read of something that is not a variable is an input error. -/
 theorem get_unknown {g : Graph V} (s : St V) {i : Nat} (hi : g.n ≤ i) :
     (State.get g s i).2 = .error .input := by
